@@ -5,7 +5,11 @@ import tracejudge
 from core import Machinery
 
 CLAUSE_PROP = {"L": "C10", "A": "C11", "T": "C12"}
-CFG = "SPECIFICATION TSpec\nCHECK_DEADLOCK FALSE\n"
+def CFG_skip(skip=()):
+    return "SPECIFICATION TSpec\nCONSTANT Skip = {%s}\nCHECK_DEADLOCK FALSE\n" % ", ".join('"%s"' % c for c in sorted(skip))
+
+
+CFG = CFG_skip()
 
 
 SPECIAL = {"A_sealed": ("C03",), "T_srvdrops": ("C12", "C10"), "T_srvdrop": ("C12", "C10")}
@@ -112,6 +116,19 @@ def judge_and_report(ctx, mine, traces, names):
     ctx.distinct_n += sum(v for k, v in kinds.items() if k.startswith("h.") or k in ("rx", "tx"))
     if traces:
         ctx.sample(dict(scenario=names[0], n_events=len(traces[0]), handler_events=[e for e in traces[0] if e["ev"] == "h"][:4]))
+    # a trace that stops at clauses of other properties only is judged again without them, so that the rest of it is examined for this property
+    skipped = set()
+    for _round in range(3):
+        foreign = [x for x in rej if x["failing"] and not ({mine, "?"} & {p_ for c in x["failing"] for p_ in props_of(c)})]
+        if not foreign:
+            break
+        skipped |= {c for x in foreign for c in x["failing"]}
+        tids = sorted({x["tid"] for x in foreign})
+        rej2, _acc2 = tracejudge.judge(ctx, "Trace_Server", CFG_skip(skipped), [traces[t - 1] for t in tids], "Trace_Server %s: %d trace(s) judged again without %s" % (mine, len(tids), sorted(skipped)))
+        for x in rej2:
+            x["tid"] = tids[x["tid"] - 1]
+            x["after_skipping"] = sorted(skipped)
+        rej = [x for x in rej if x not in foreign] + rej2
     other = 0
     for x in rej:
         clauses = sorted(x["failing"]) or ["(none)"]
@@ -119,8 +136,8 @@ def judge_and_report(ctx, mine, traces, names):
         if mine in owners or "?" in owners:
             ev = x["ev"] if isinstance(x["ev"], dict) else {}
             tr = traces[x["tid"] - 1]
-            ctx.fail("%s: recorded server execution rejected by Trace_Server at event %s: clause(s) %s false; event %s"
-                     % (names[x["tid"] - 1], x["l"], ",".join(clauses), json.dumps(ev)[:500]),
+            ctx.fail("%s: recorded server execution rejected by Trace_Server at event %s: clause(s) %s false%s; event %s"
+                     % (names[x["tid"] - 1], x["l"], ",".join(clauses), (" (judged again without %s)" % ",".join(x["after_skipping"])) if x.get("after_skipping") else "", json.dumps(ev)[:500]),
                      dict(scenario=names[x["tid"] - 1], position=x["l"], failing=clauses, event=ev, state={k: v for k, v in x.items() if k not in ("ev",)},
                           prefix_tail=tr[max(0, x["l"] - 8):x["l"]]))
         else:
